@@ -62,6 +62,16 @@ func (s *classifySlice) exec(t []string) string {
 			cb2.RecordResult(val)
 		}
 		crFail := int(cb2.Metrics().Failures())
+		if err == nil {
+			// RecordError(nil) classifies the outcome (zero result, nil error): it must agree with RecordResult(0) when val == 0
+			cb3 := cbB.Build()
+			cb3.RecordError(nil)
+			cb4 := cbB.Build()
+			cb4.RecordResult(0)
+			if cb3.Metrics().Failures() != cb4.Metrics().Failures() {
+				crFail = 900 + int(cb3.Metrics().Failures())*10 + int(cb4.Metrics().Failures())
+			}
+		}
 
 		rpB := retrypolicy.Builder[int]().WithMaxRetries(1)
 		applyConds(s.handle, func(e ...error) { rpB.HandleErrors(e...) }, func(a ...any) { rpB.HandleErrorTypes(a...) }, func(r int) { rpB.HandleResult(r) }, func(p func(int, error) bool) { rpB.HandleIf(p) })
